@@ -1,5 +1,899 @@
-//! Conformance harness for specification-growth module g01 (see /verif/DESIGN.md 12.6).
+//! Conformance harness for specification-growth module G01: the `cd` and
+//! `pwd` built-ins and the shell's notion of the working directory
+//! (spec/CdPwd.tla).
+//!
+//! `replay`  spec -> impl: reads the lines TLC printed from spec/Gen_CdPwd.tla
+//!           (one per reachable state: tree, start of the shell, witness steps
+//!           leading to the state, and the fan = every step tried in the state
+//!           with the outcome CdPwd.tla allows).  For every (state, step) one
+//!           subshell of the real shell runs the witness, `obs` (state reached?),
+//!           the step, `obs`, `pwd -L`, `obs`, `pwd -P`, `obs`, and the
+//!           observations ($?, standard output, $PWD, $OLDPWD, the process's
+//!           working directory) are compared with the allowed outcome.  Every
+//!           case runs on the real file system (inside a chroot into a scratch
+//!           directory, so that absolute pathnames mean the same as in the
+//!           model) and, for trees without symbolic links, on the simulated
+//!           file system (the simulator does not follow symbolic links in
+//!           directory prefixes: known findings C05-F2 / C19).
+//! `random`  impl -> spec: seeded random trees and long random cd / pwd
+//!           sequences, run by one shell process each, recorded for
+//!           validation by spec/Trace_CdPwd.tla.
+//! `redo`    re-executes recorded cases (replay files, anti-vacuity tests).
+use rand::rngs::StdRng;
+use rand::{Rng, SeedableRng};
+use serde_json::{Value, json};
+use std::collections::{HashMap, HashSet};
+use std::io::{BufRead, Write};
+use std::pin::Pin;
+use std::rc::Rc;
+use std::sync::Mutex;
+use std::sync::atomic::{AtomicUsize, Ordering};
+use yash_cli::startup::args::Parse;
+use yash_env::Env;
+use yash_env::RealSystem;
+use yash_env::builtin::{Builtin, Result as BResult, Type};
+use yash_env::io::Fd;
+use yash_env::semantics::{Field, exit_or_raise};
+use yash_env::system::{Concurrent, Disposition, Sigaction as _, Signals as _};
+use yvcommon::real::{RealCfg, run_real};
+use yvcommon::sched::Outcome;
+use yvcommon::shell::{EVENT_FILE, FileSpec, ShellCfg, ShellSystem, Sys, push_event, register_generic_probes, run_shell, shell_body};
+use yvcommon::util::{catch, open_in, open_out, opt, opt_usize};
+
+// ---------------------------------------------------------------------------
+// the observation point
+// ---------------------------------------------------------------------------
+static REAL_CHILD: std::sync::atomic::AtomicBool = std::sync::atomic::AtomicBool::new(false);
+
+/// `obs TAG [args...]`: records TAG, the arguments, `$?` and the working
+/// directory of the process (real OS: getcwd(3) of this process; simulated OS:
+/// the cwd of the simulated process), writes the line `#TAG` to standard
+/// output (so that the output of the commands before it can be cut out) and
+/// leaves `$?` unchanged.
+fn obs_main<S: ShellSystem>(env: &mut Env<S>, args: Vec<Field>) -> Pin<Box<dyn Future<Output = BResult> + '_>> {
+    Box::pin(async move {
+        let tag = args.first().map(|f| f.value.clone()).unwrap_or_default();
+        let rest: Vec<String> = args.iter().skip(1).map(|f| f.value.clone()).collect();
+        let cwd = if REAL_CHILD.load(Ordering::SeqCst) {
+            match std::env::current_dir() {
+                Ok(p) => p.to_string_lossy().into_owned(),
+                Err(e) => format!("!{e}"),
+            }
+        } else {
+            match env.system.getcwd() {
+                Ok(p) => p.to_string_lossy().into_owned(),
+                Err(e) => format!("!{e:?}"),
+            }
+        };
+        push_event(json!({"ev": "obs", "tag": tag, "args": rest, "st": env.exit_status.0, "cwd": cwd}));
+        let _ = env.system.write_all(Fd::STDOUT, format!("#{tag}\n").as_bytes()).await;
+        BResult::new(env.exit_status)
+    })
+}
+
+/// The shell child on the real OS: confined to the scratch directory (so that
+/// "/" is the root of the modelled tree), started in the given directory,
+/// otherwise `yvcommon::real`'s mirror runner plus the `obs` built-in.
+fn real_child_main(cwd: String) -> ! {
+    let dot = std::ffi::CString::new(".").unwrap();
+    let c = std::ffi::CString::new(cwd).unwrap();
+    let rc = unsafe { libc::chroot(dot.as_ptr()) };
+    let rc2 = unsafe { libc::chdir(c.as_ptr()) };
+    if rc != 0 || rc2 != 0 {
+        eprintln!("yv-g01: chroot/chdir failed");
+        std::process::exit(97);
+    }
+    REAL_CHILD.store(true, Ordering::SeqCst);
+    if let Ok(p) = std::env::var("YV_EVENTS") {
+        EVENT_FILE.with(|f| *f.borrow_mut() = Some(p));
+    }
+    // SAFETY: single-threaded at this point
+    unsafe {
+        std::env::remove_var("YV_EVENTS");
+        std::env::remove_var("YV_CHILD");
+        std::env::remove_var("YV_G01_CWD");
+    }
+    // SAFETY: the only RealSystem in this process
+    let system = unsafe { RealSystem::new() };
+    system.sigaction(RealSystem::SIGPIPE, Disposition::Default).ok();
+    let system = Rc::new(Concurrent::new(system));
+    let runner = Rc::clone(&system);
+    let task = async {
+        let mut env = Env::with_system(system);
+        match yash_cli::startup::args::parse(std::env::args()) {
+            Ok(Parse::Run(run)) => {
+                env.variables.extend_env(std::env::vars());
+                shell_body(&mut env, run, |env| {
+                    register_generic_probes(env);
+                    env.builtins.insert("obs", Builtin::new(Type::Mandatory, obs_main::<Rc<Concurrent<RealSystem>>>));
+                })
+                .await;
+            }
+            _ => env.exit_status = yash_env::semantics::ExitStatus(2),
+        }
+        exit_or_raise(&env.system, env.exit_status).await
+    };
+    runner.run_real(task)
+}
+
+// ---------------------------------------------------------------------------
+// trees, starts, scripts
+// ---------------------------------------------------------------------------
+fn strs(v: &Value) -> Vec<String> {
+    v.as_array().map(|a| a.iter().map(|s| s.as_str().unwrap_or("").to_string()).collect()).unwrap_or_default()
+}
+
+fn node_path(n: &Value) -> String {
+    let p = strs(&n["p"]);
+    if p.is_empty() { "/".to_string() } else { format!("/{}", p.join("/")) }
+}
+
+fn has_links(nodes: &Value) -> bool {
+    nodes.as_array().unwrap().iter().any(|n| n["k"] == "l")
+}
+
+fn files_of(nodes: &Value) -> Vec<FileSpec> {
+    let mut out = vec![];
+    for n in nodes.as_array().unwrap() {
+        let p = node_path(n);
+        if p == "/" {
+            continue;
+        }
+        match n["k"].as_str().unwrap() {
+            "d" => out.push(FileSpec::Dir { path: p }),
+            "f" => out.push(FileSpec::Regular { path: p, content: b"x".to_vec(), mode: 0o644 }),
+            _ => out.push(FileSpec::Symlink { path: p, target: n["to"].as_str().unwrap().to_string() }),
+        }
+    }
+    out
+}
+
+fn quote(s: &str) -> String {
+    format!("'{}'", s.replace('\'', "'\\''"))
+}
+
+/// One step as shell text.  `variant` odd: an empty value is rendered as
+/// `unset NAME` (the specification treats unset and empty alike).
+fn render_step(step: &Value, variant: usize) -> String {
+    let mut s = String::new();
+    for a in step["pre"].as_array().unwrap() {
+        let name = a[0].as_str().unwrap();
+        let val = a[1].as_str().unwrap();
+        if val.is_empty() && variant % 2 == 1 {
+            s.push_str(&format!("unset {name}\n"));
+        } else {
+            s.push_str(&format!("{name}={}\n", quote(val)));
+        }
+    }
+    s.push_str(step["k"].as_str().unwrap());
+    for o in strs(&step["opts"]) {
+        s.push(' ');
+        s.push_str(&o);
+    }
+    for a in strs(&step["args"]) {
+        s.push(' ');
+        s.push_str(&quote(&a));
+    }
+    s.push('\n');
+    s
+}
+
+const OBS_VARS: &str = "\"$PWD\" \"${OLDPWD-}\"";
+
+/// Everything one shell process observed: `obs` events by tag, and the lines
+/// on standard output before each `#TAG` line.
+struct Observed {
+    outcome: String,
+    ev: HashMap<String, Value>,
+    out: HashMap<String, Vec<String>>,
+}
+
+fn digest(events: &[Value], stdout: &[u8], outcome: String) -> Observed {
+    let mut ev = HashMap::new();
+    for e in events {
+        if e["ev"] == "obs" {
+            ev.insert(e["tag"].as_str().unwrap_or("").to_string(), e.clone());
+        }
+    }
+    let mut out = HashMap::new();
+    let mut acc: Vec<String> = vec![];
+    for line in String::from_utf8_lossy(stdout).split('\n') {
+        if let Some(tag) = line.strip_prefix('#') {
+            out.insert(tag.to_string(), std::mem::take(&mut acc));
+        } else {
+            acc.push(line.to_string());
+        }
+    }
+    Observed { outcome, ev, out }
+}
+
+#[derive(Clone, Copy, PartialEq, Eq, Hash, Debug)]
+enum Mode {
+    Sim,
+    Real,
+}
+impl Mode {
+    fn name(self) -> &'static str {
+        match self {
+            Mode::Sim => "sim",
+            Mode::Real => "real",
+        }
+    }
+}
+
+/// Runs `script` in a fresh shell started in `start` on tree `nodes`.
+fn run_script(nodes: &Value, start: &Value, script: &str, mode: Mode) -> Observed {
+    let cwd = start["cwd"].as_str().unwrap().to_string();
+    let mut envv: Vec<(String, String)> = vec![];
+    for (k, name) in [("pwd", "PWD"), ("oldpwd", "OLDPWD"), ("home", "HOME"), ("cdpath", "CDPATH")] {
+        let v = start["env"][k].as_str().unwrap_or("");
+        if !v.is_empty() {
+            envv.push((name.to_string(), v.to_string()));
+        }
+    }
+    match mode {
+        Mode::Sim => {
+            let mut cfg = ShellCfg::stdin_script(script.as_bytes());
+            cfg.files = files_of(nodes);
+            cfg.cwd = Some(cwd);
+            cfg.env = envv;
+            cfg.step_limit = 400_000_000;
+            cfg.setup = Some(Box::new(|env, _| {
+                env.builtins.insert("obs", Builtin::new(Type::Mandatory, obs_main::<Sys>));
+            }));
+            match catch(move || run_shell(cfg)) {
+                Ok(r) => {
+                    let outcome = match &r.outcome {
+                        Outcome::Completed => "completed".to_string(),
+                        _ => r.outcome_str(),
+                    };
+                    digest(&r.events, &r.stdout, outcome)
+                }
+                Err(msg) => digest(&[], b"", format!("panic: {msg}")),
+            }
+        }
+        Mode::Real => {
+            let mut cfg = RealCfg::command("", true);
+            cfg.args = vec![];
+            cfg.stdin = script.as_bytes().to_vec();
+            cfg.files = files_of(nodes);
+            // `pwd` is a substitutive built-in: found only if $PATH holds an executable
+            cfg.files.push(FileSpec::Regular { path: "/bin/pwd".into(), content: b"#!/bin/false\n".to_vec(), mode: 0o755 });
+            cfg.timeout = std::time::Duration::from_secs(300);
+            cfg.env = envv;
+            cfg.env.push(("PATH".into(), "/bin".into()));
+            cfg.env.push(("YV_CHILD".into(), "none".into()));
+            cfg.env.push(("YV_G01_CWD".into(), cwd));
+            cfg.env.push(("YV_EVENTS".into(), "/.yv-events".into()));
+            let r = run_real(&cfg);
+            let mut events: Vec<Value> = r.events.clone();
+            for (name, content) in &r.files {
+                if name == ".yv-events" {
+                    for l in String::from_utf8_lossy(content).lines() {
+                        if let Ok(v) = serde_json::from_str(l) {
+                            events.push(v);
+                        }
+                    }
+                }
+            }
+            let outcome = if r.timed_out {
+                "timeout".to_string()
+            } else if r.status != 0 {
+                format!("status {}: {}", r.status, String::from_utf8_lossy(&r.stderr).chars().take(300).collect::<String>())
+            } else {
+                "completed".to_string()
+            };
+            digest(&events, &r.stdout, outcome)
+        }
+    }
+}
+
+/// The simulated `chdir` stores the joined pathname unresolved (known finding
+/// C19-getcwd-not-canonical): once the simulated working directory holds a
+/// dot component or a redundant slash the simulator no longer tells what the
+/// built-ins did, and the case is skipped on the simulator (and counted).
+fn sim_dirty(cwd: &str) -> bool {
+    !cwd.starts_with('/')
+        || cwd.contains("//")
+        || (cwd.len() > 1 && cwd.ends_with('/'))
+        || cwd.split('/').any(|c| c == "." || c == "..")
+}
+
+// ---------------------------------------------------------------------------
+// replay (spec -> impl)
+// ---------------------------------------------------------------------------
+fn case_script(st: &Value, step: &Value, id: &str, variant: usize) -> String {
+    let mut s = String::from("(\n");
+    for (j, wstep) in st["w"].as_array().unwrap().iter().enumerate() {
+        s.push_str(&render_step(wstep, variant + j));
+    }
+    s.push_str(&format!("obs S{id} {OBS_VARS}\n"));
+    s.push_str(&render_step(step, variant));
+    s.push_str(&format!("obs O{id} {OBS_VARS}\npwd -L\nobs L{id}\npwd -P\nobs P{id}\n)\n"));
+    s
+}
+
+#[derive(Default)]
+struct Counters {
+    cases: usize,
+    unspec: usize,
+    unreached: usize,
+    sim_dirty: usize,
+    nontrivial: usize,
+    mismatches: usize,
+    by_status: HashMap<String, usize>,
+    printed: usize,
+}
+
+enum Verdict {
+    Ok,
+    Unspec,
+    Dirty,
+    StateNotReached(Value),
+    Deviation(&'static str, Value),
+}
+
+fn obs_of(o: &Observed, tag: &str) -> Option<(i64, String, String, String, Vec<String>)> {
+    let e = o.ev.get(tag)?;
+    let a = strs(&e["args"]);
+    Some((
+        e["st"].as_i64().unwrap_or(-1),
+        a.first().cloned().unwrap_or_default(),
+        a.get(1).cloned().unwrap_or_default(),
+        e["cwd"].as_str().unwrap_or("").to_string(),
+        o.out.get(tag).cloned().unwrap_or_default(),
+    ))
+}
+
+fn judge(o: &Observed, st: &Value, exp: &Value, id: &str, mode: Mode) -> Verdict {
+    let Some((_, pwd0, old0, cwd0, _)) = obs_of(o, &format!("S{id}")) else {
+        return Verdict::Deviation("no-observation", json!({"outcome": o.outcome}));
+    };
+    if mode == Mode::Sim && sim_dirty(&cwd0) {
+        return Verdict::Dirty;
+    }
+    let s = &st["s"];
+    if pwd0 != s["pwd"].as_str().unwrap() || old0 != s["oldpwd"].as_str().unwrap() || cwd0 != s["cwd"].as_str().unwrap() {
+        return Verdict::StateNotReached(json!({"pwd": pwd0, "oldpwd": old0, "cwd": cwd0}));
+    }
+    if exp["unspec"].as_bool().unwrap() {
+        return Verdict::Unspec;
+    }
+    let Some((stt, pwd, old, cwd, out)) = obs_of(o, &format!("O{id}")) else {
+        return Verdict::Deviation("no-observation", json!({"outcome": o.outcome}));
+    };
+    let seen = json!({"st": stt, "out": out, "pwd": pwd, "oldpwd": old, "cwd": cwd});
+    if mode == Mode::Sim && sim_dirty(&cwd) {
+        return Verdict::Dirty;
+    }
+    let lo = exp["st"][0].as_i64().unwrap();
+    let hi = exp["st"][1].as_i64().unwrap();
+    if stt < lo || stt > hi {
+        return Verdict::Deviation("status", seen);
+    }
+    if out != strs(&exp["out"]) {
+        return Verdict::Deviation("stdout", seen);
+    }
+    if cwd != exp["cwd"].as_str().unwrap() {
+        return Verdict::Deviation("cwd", seen);
+    }
+    if pwd != exp["pwd"].as_str().unwrap() {
+        return Verdict::Deviation("pwd", seen);
+    }
+    if old != exp["oldpwd"].as_str().unwrap() {
+        return Verdict::Deviation("oldpwd", seen);
+    }
+    for (tag, key, field) in [("L", "pl", "pwd-L"), ("P", "pp", "pwd-P")] {
+        let Some((s2, _, _, _, out2)) = obs_of(o, &format!("{tag}{id}")) else {
+            return Verdict::Deviation("no-observation", json!({"outcome": o.outcome, "after": seen}));
+        };
+        if s2 != 0 || out2 != vec![exp[key].as_str().unwrap().to_string()] {
+            return Verdict::Deviation(field, json!({"st": s2, "out": out2, "after": seen}));
+        }
+    }
+    Verdict::Ok
+}
+
+fn classify(exp: &Value) -> String {
+    if exp["unspec"].as_bool().unwrap() {
+        return "unspec".into();
+    }
+    format!("{}:{}", exp["k"].as_str().unwrap(), exp["st"][0])
+}
+
+fn replay(args: &[String]) {
+    let chunk = opt_usize(args, "--chunk", 330);
+    let threads = opt_usize(args, "--threads", 12);
+    let only: Option<&str> = opt(args, "--only");
+    // one work item = one state line; the lines are read and parsed on demand
+    let input = std::io::BufReader::with_capacity(1 << 20, std::fs::File::open(opt(args, "--in").expect("--in FILE")).expect("open --in"));
+    let lines = Mutex::new(input.lines().enumerate());
+    let counters: Mutex<HashMap<Mode, Counters>> = Mutex::new(HashMap::new());
+    let mismatches: Mutex<Vec<Value>> = Mutex::new(vec![]);
+    let samples: Mutex<Vec<Value>> = Mutex::new(vec![]);
+    let env_failure: Mutex<Option<String>> = Mutex::new(None);
+    let nstates = AtomicUsize::new(0);
+    let njobs = AtomicUsize::new(0);
+    let skipped_links = AtomicUsize::new(0);
+    std::thread::scope(|sc| {
+        for _ in 0..threads {
+            sc.spawn(|| {
+                loop {
+                    let item = lines.lock().unwrap().next();
+                    let Some((si, line)) = item else { break };
+                    let line = line.expect("read");
+                    if line.trim().is_empty() {
+                        continue;
+                    }
+                    let st: Value = serde_json::from_str(&line).expect("json line from TLC");
+                    drop(line);
+                    nstates.fetch_add(1, Ordering::SeqCst);
+                    let links = has_links(&st["nodes"]);
+                    let nfan = st["fan"].as_array().unwrap().len();
+                    let all: Vec<usize> = (0..nfan).collect();
+                    let mut modes = vec![];
+                    if only != Some("sim") {
+                        modes.push(Mode::Real);
+                    }
+                    if only != Some("real") {
+                        if links {
+                            skipped_links.fetch_add(nfan, Ordering::SeqCst);
+                        } else {
+                            modes.push(Mode::Sim);
+                        }
+                    }
+                    let mut state_reported: HashSet<Mode> = HashSet::new();
+                    for mode in modes {
+                        for part in all.chunks(chunk) {
+                            njobs.fetch_add(1, Ordering::SeqCst);
+                            let mut rest: &[usize] = part;
+                            let mut restarts = 0;
+                            while !rest.is_empty() {
+                                let mut script = String::new();
+                                for &k in rest {
+                                    script.push_str(&case_script(&st, &st["fan"][k], &format!("{si}.{k}"), si + k));
+                                }
+                                let o = run_script(&st["nodes"], &st["start"], &script, mode);
+                                if o.outcome == "timeout" || o.outcome.starts_with("status 97") {
+                                    *env_failure.lock().unwrap() = Some(format!("{} run: {}", mode.name(), o.outcome));
+                                    return;
+                                }
+                                // a shell that did not get through the script: blame the first
+                                // case without its last observation, go on after it
+                                let mut cut = rest.len();
+                                if o.outcome != "completed" {
+                                    if let Some(k) = rest.iter().position(|k| !o.ev.contains_key(&format!("P{si}.{k}"))) {
+                                        cut = k + 1;
+                                    }
+                                }
+                                let mut cs = counters.lock().unwrap();
+                                let cn = cs.entry(mode).or_default();
+                                for &k in &rest[..cut] {
+                                    let exp = &st["fan"][k];
+                                    let id = format!("{si}.{k}");
+                                    let v = judge(&o, &st, exp, &id, mode);
+                                    cn.cases += 1;
+                                    let record = |field: &str, exp: Value, seen: Value| {
+                                        mismatches.lock().unwrap().push(json!({
+                                            "mode": mode.name(), "field": field, "tid": st["tid"], "links": links,
+                                            "nodes": st["nodes"], "start": st["start"], "w": st["w"], "s": st["s"],
+                                            "exp": exp, "seen": seen, "outcome": o.outcome, "variant": si + k,
+                                        }));
+                                    };
+                                    match v {
+                                        Verdict::Ok => {
+                                            *cn.by_status.entry(classify(exp)).or_default() += 1;
+                                            if exp["k"] == "cd" && exp["st"][0] == 0 {
+                                                cn.nontrivial += 1;
+                                            }
+                                            if !strs(&exp["out"]).is_empty() && exp["k"] == "cd" {
+                                                cn.printed += 1;
+                                                let mut sm = samples.lock().unwrap();
+                                                if sm.len() < 6 && (k + si) % 97 == 0 {
+                                                    sm.push(json!({"mode": mode.name(), "tree": st["tid"], "state": st["s"],
+                                                        "step": render_step(exp, 0), "stdout": exp["out"], "pwd": exp["pwd"], "cwd": exp["cwd"]}));
+                                                }
+                                            }
+                                        }
+                                        Verdict::Unspec => cn.unspec += 1,
+                                        Verdict::Dirty => cn.sim_dirty += 1,
+                                        Verdict::StateNotReached(seen) => {
+                                            cn.unreached += 1;
+                                            if state_reported.insert(mode) {
+                                                cn.mismatches += 1;
+                                                record("state", json!({"pre": [], "k": "none", "opts": [], "args": []}), seen);
+                                            }
+                                        }
+                                        Verdict::Deviation(field, seen) => {
+                                            cn.mismatches += 1;
+                                            record(field, exp.clone(), seen);
+                                        }
+                                    }
+                                }
+                                drop(cs);
+                                rest = &rest[cut..];
+                                restarts += 1;
+                                if restarts > 30 {
+                                    break;
+                                }
+                            }
+                        }
+                    }
+                }
+            });
+        }
+    });
+    if let Some(msg) = env_failure.lock().unwrap().take() {
+        eprintln!("yv-g01: run failed for environmental reasons: {msg}");
+        std::process::exit(2);
+    }
+    let mut out = open_out(args);
+    for m in mismatches.lock().unwrap().iter() {
+        writeln!(out, "{m}").unwrap();
+    }
+    out.flush().unwrap();
+    let cs = counters.lock().unwrap();
+    let cj = |m: Mode| -> Value {
+        match cs.get(&m) {
+            None => json!({"cases": 0}),
+            Some(c) => json!({"cases": c.cases, "unspec": c.unspec, "unreached": c.unreached, "sim_dirty": c.sim_dirty,
+                "nontrivial": c.nontrivial, "printed": c.printed, "mismatches": c.mismatches, "by_class": c.by_status}),
+        }
+    };
+    println!(
+        "{}",
+        json!({"states": nstates.load(Ordering::SeqCst), "jobs": njobs.load(Ordering::SeqCst), "sim": cj(Mode::Sim), "real": cj(Mode::Real),
+            "sim_skipped_links": skipped_links.load(Ordering::SeqCst), "samples": *samples.lock().unwrap()})
+    );
+}
+
+// ---------------------------------------------------------------------------
+// random (impl -> spec)
+// ---------------------------------------------------------------------------
+fn pick<'a, T>(rng: &mut StdRng, xs: &'a [T]) -> &'a T {
+    &xs[rng.gen_range(0..xs.len())]
+}
+
+struct RTree {
+    /// (path components, kind, target)
+    nodes: Vec<(Vec<String>, char, String)>,
+}
+
+impl RTree {
+    fn dirs(&self) -> Vec<Vec<String>> {
+        self.nodes.iter().filter(|n| n.1 == 'd').map(|n| n.0.clone()).collect()
+    }
+    fn to_json(&self) -> Value {
+        Value::Array(self.nodes.iter().map(|(p, k, to)| json!({"p": p, "k": k.to_string(), "to": to})).collect())
+    }
+    fn has(&self, p: &[String]) -> bool {
+        self.nodes.iter().any(|n| n.0 == p)
+    }
+}
+
+fn abs(p: &[String]) -> String {
+    if p.is_empty() { "/".into() } else { format!("/{}", p.join("/")) }
+}
+
+fn random_tree(rng: &mut StdRng) -> RTree {
+    let names = ["a", "b", "c", "d", "e"];
+    let mut t = RTree { nodes: vec![(vec![], 'd', String::new())] };
+    let ndirs = rng.gen_range(3..8);
+    for _ in 0..ndirs {
+        let dirs = t.dirs();
+        let parent = pick(rng, &dirs).clone();
+        if parent.len() >= 3 {
+            continue;
+        }
+        let mut p = parent;
+        p.push(pick(rng, &names).to_string());
+        if !t.has(&p) {
+            t.nodes.push((p, 'd', String::new()));
+        }
+    }
+    // a regular file
+    let dirs = t.dirs();
+    let mut p = pick(rng, &dirs).clone();
+    p.push("f".to_string());
+    t.nodes.push((p, 'f', String::new()));
+    // symbolic links (half of the trees have none: they also run on the simulator)
+    if rng.gen_bool(0.6) {
+        let nlinks = rng.gen_range(1..4);
+        for (i, lname) in ["l", "m", "k"].iter().enumerate() {
+            if i >= nlinks {
+                break;
+            }
+            let dirs = t.dirs();
+            let mut p = pick(rng, &dirs).clone();
+            let depth = p.len();
+            p.push(lname.to_string());
+            let target_dir = pick(rng, &dirs).clone();
+            let target = match rng.gen_range(0..10) {
+                0 => "nowhere".to_string(),
+                1 => {
+                    // to the regular file
+                    abs(&t.nodes.iter().find(|n| n.1 == 'f').unwrap().0)
+                }
+                2 => "..".to_string(),
+                3 | 4 | 5 => abs(&target_dir),
+                _ => {
+                    // relative: up to the root, then down
+                    let mut s = vec!["..".to_string(); depth];
+                    s.extend(target_dir.iter().cloned());
+                    if s.is_empty() { ".".to_string() } else { s.join("/") }
+                }
+            };
+            t.nodes.push((p, 'l', target));
+        }
+    }
+    t
+}
+
+fn random_path(rng: &mut StdRng, t: &RTree) -> String {
+    let mut pool: Vec<String> = vec![".".into(), "..".into(), "..".into(), "nx".into()];
+    for n in &t.nodes {
+        if let Some(last) = n.0.last() {
+            pool.push(last.clone());
+            pool.push(last.clone());
+        }
+    }
+    let n = rng.gen_range(1..4);
+    let mut s = String::new();
+    if rng.gen_bool(0.3) {
+        s.push('/');
+    }
+    for i in 0..n {
+        if i > 0 {
+            s.push_str(if rng.gen_bool(0.06) { "//" } else { "/" });
+        }
+        s.push_str(pick(rng, &pool));
+    }
+    if rng.gen_bool(0.1) {
+        s.push('/');
+    }
+    s
+}
+
+fn random_step(rng: &mut StdRng, t: &RTree) -> Value {
+    let dirs = t.dirs();
+    let home = match rng.gen_range(0..6) {
+        0 => String::new(),
+        1 => random_path(rng, t),
+        _ => abs(pick(rng, &dirs)),
+    };
+    let cdpath = if rng.gen_bool(0.3) {
+        let n = rng.gen_range(1..4);
+        let items: Vec<String> = (0..n)
+            .map(|_| match rng.gen_range(0..6) {
+                0 => String::new(),
+                1 => ".".into(),
+                2 => "..".into(),
+                3 => random_path(rng, t),
+                _ => abs(pick(rng, &dirs)),
+            })
+            .collect();
+        items.join(":")
+    } else {
+        String::new()
+    };
+    let mut pre = vec![json!(["HOME", home]), json!(["CDPATH", cdpath])];
+    if rng.gen_bool(0.05) {
+        pre.push(json!(["OLDPWD", if rng.gen_bool(0.3) { String::new() } else { random_path(rng, t) }]));
+    }
+    if rng.gen_bool(0.15) {
+        let opts: &[&str] = *pick(rng, &[&[][..], &["-L"][..], &["-P"][..], &["-LP"][..], &["-P", "-L"][..], &["--"][..]]);
+        return json!({"pre": pre, "k": "pwd", "opts": opts, "args": []});
+    }
+    let opts: &[&str] = *pick(
+        rng,
+        &[&[][..], &[][..], &["-L"][..], &["-L"][..], &["-P"][..], &["-P"][..], &["-P"][..], &["-L", "-P"][..], &["-PL"][..], &["-Pe"][..], &["--"][..], &["-P", "--"][..]],
+    );
+    let args: Vec<String> = match rng.gen_range(0..20) {
+        0 | 1 => vec![],
+        2 | 3 | 4 => vec!["-".into()],
+        5 => vec![String::new()],
+        _ => {
+            let mut p = random_path(rng, t);
+            while p.starts_with("//") {
+                p.remove(0);
+            }
+            vec![p]
+        }
+    };
+    json!({"pre": pre, "k": "cd", "opts": opts, "args": args})
+}
+
+fn sequence_script(steps: &[Value]) -> String {
+    let mut s = format!("obs S {OBS_VARS}\n");
+    for (i, st) in steps.iter().enumerate() {
+        s.push_str(&render_step(st, i));
+        s.push_str(&format!("obs O{i} {OBS_VARS}\n"));
+    }
+    s
+}
+
+/// Runs one sequence and returns the trace record (steps cut at the first
+/// one that was not observed or - on the simulator - left the simulated
+/// working directory in a non-canonical form), plus the number of steps cut.
+fn record_sequence(nodes: &Value, start: &Value, steps: &[Value], mode: Mode, id: usize) -> (Value, usize, String) {
+    let o = run_script(nodes, start, &sequence_script(steps), mode);
+    let cwdp: Vec<String> = start["cwd"].as_str().unwrap().split('/').filter(|c| !c.is_empty()).map(|c| c.to_string()).collect();
+    let s0 = match obs_of(&o, "S") {
+        Some((_, pwd, old, cwd, _)) => json!({"pwd": pwd, "oldpwd": old, "cwd": cwd, "miss": false}),
+        None => json!({"pwd": "", "oldpwd": "", "cwd": "", "miss": true}),
+    };
+    let mut recs = vec![];
+    let mut cutn = 0;
+    for (i, st) in steps.iter().enumerate() {
+        match obs_of(&o, &format!("O{i}")) {
+            Some((stt, pwd, old, cwd, out)) => {
+                if mode == Mode::Sim && sim_dirty(&cwd) {
+                    cutn = steps.len() - i;
+                    break;
+                }
+                recs.push(json!({"pre": st["pre"], "k": st["k"], "opts": st["opts"], "args": st["args"],
+                    "st": stt, "out": out, "pwd": pwd, "oldpwd": old, "cwd": cwd, "miss": false}));
+            }
+            None => {
+                recs.push(json!({"pre": st["pre"], "k": st["k"], "opts": st["opts"], "args": st["args"],
+                    "st": -1, "out": [], "pwd": "", "oldpwd": "", "cwd": "", "miss": true}));
+                break;
+            }
+        }
+    }
+    (
+        json!({"id": id, "mode": mode.name(), "nodes": nodes, "cwd": cwdp, "env": start["env"], "s0": s0, "steps": recs,
+               "outcome": o.outcome}),
+        cutn,
+        o.outcome,
+    )
+}
+
+fn random(args: &[String]) {
+    let runs = opt_usize(args, "--runs", 100);
+    let len = opt_usize(args, "--len", 14);
+    let threads = opt_usize(args, "--threads", 12);
+    let seed = yvcommon::util::seed();
+    let mut jobs: Vec<(Value, Value, Vec<Value>, usize)> = vec![];
+    for id in 0..runs {
+        let mut rng = StdRng::seed_from_u64(seed.wrapping_mul(1_000_003).wrapping_add(id as u64));
+        let t = random_tree(&mut rng);
+        let dirs = t.dirs();
+        let cwd = pick(&mut rng, &dirs).clone();
+        let envpwd = match rng.gen_range(0..5) {
+            0 => String::new(),
+            1 => random_path(&mut rng, &t),
+            _ => abs(&cwd),
+        };
+        let envold = if rng.gen_bool(0.3) { abs(pick(&mut rng, &dirs)) } else { String::new() };
+        let start = json!({"cwd": abs(&cwd), "env": {"pwd": envpwd, "oldpwd": envold, "home": "", "cdpath": ""}});
+        let steps: Vec<Value> = (0..len).map(|_| random_step(&mut rng, &t)).collect();
+        jobs.push((t.to_json(), start, steps, id));
+    }
+    let next = AtomicUsize::new(0);
+    let results: Mutex<Vec<(usize, Value)>> = Mutex::new(vec![]);
+    let totals: Mutex<(usize, usize, usize)> = Mutex::new((0, 0, 0)); // sim steps cut, sim records, real records
+    let env_failure: Mutex<Option<String>> = Mutex::new(None);
+    std::thread::scope(|sc| {
+        for _ in 0..threads {
+            sc.spawn(|| {
+                loop {
+                    let j = next.fetch_add(1, Ordering::SeqCst);
+                    if j >= jobs.len() {
+                        break;
+                    }
+                    let (nodes, start, steps, id) = &jobs[j];
+                    let (rec, _, outcome) = record_sequence(nodes, start, steps, Mode::Real, *id);
+                    if outcome == "timeout" || outcome.starts_with("status 97") {
+                        *env_failure.lock().unwrap() = Some(outcome);
+                        return;
+                    }
+                    results.lock().unwrap().push((*id * 2, rec));
+                    totals.lock().unwrap().2 += 1;
+                    if !has_links(nodes) {
+                        let (rec, cutn, _) = record_sequence(nodes, start, steps, Mode::Sim, *id);
+                        results.lock().unwrap().push((*id * 2 + 1, rec));
+                        let mut t = totals.lock().unwrap();
+                        t.0 += cutn;
+                        t.1 += 1;
+                    }
+                }
+            });
+        }
+    });
+    if let Some(msg) = env_failure.lock().unwrap().take() {
+        eprintln!("yv-g01: real run failed for environmental reasons: {msg}");
+        std::process::exit(2);
+    }
+    let mut rs = results.into_inner().unwrap();
+    rs.sort_by_key(|r| r.0);
+    let mut out = open_out(args);
+    let mut steps = 0;
+    for (_, r) in &rs {
+        steps += r["steps"].as_array().unwrap().len();
+        writeln!(out, "{r}").unwrap();
+    }
+    out.flush().unwrap();
+    let t = totals.lock().unwrap();
+    println!("{}", json!({"records": rs.len(), "steps": steps, "sim_records": t.1, "real_records": t.2, "sim_steps_cut_dirty": t.0}));
+}
+
+// ---------------------------------------------------------------------------
+// redo
+// ---------------------------------------------------------------------------
+/// `redo --in FILE`: FILE holds mismatch records of `replay` (re-run and
+/// compared with the recorded expectation; prints one verdict line each and
+/// `{"bad": n}`) or trace records of `random` (re-run; the fresh records go to
+/// `--out` for validation by Trace_CdPwd).
+fn redo(args: &[String]) {
+    let mut out = open_out(args);
+    let mut bad = 0;
+    for line in open_in(args).lines() {
+        let line = line.expect("read");
+        if line.trim().is_empty() {
+            continue;
+        }
+        let v: Value = serde_json::from_str(&line).expect("json");
+        let mode = if v["mode"] == "sim" { Mode::Sim } else { Mode::Real };
+        if v.get("steps").is_some() {
+            let steps: Vec<Value> = v["steps"].as_array().unwrap().clone();
+            let start = json!({"cwd": abs(&strs(&v["cwd"])), "env": v["env"]});
+            let (rec, _, _) = record_sequence(&v["nodes"], &start, &steps, mode, v["id"].as_u64().unwrap_or(0) as usize);
+            writeln!(out, "{rec}").unwrap();
+            continue;
+        }
+        let exp = &v["exp"];
+        let script = if exp["k"] == "none" {
+            let mut s = String::from("(\n");
+            for (j, wstep) in v["w"].as_array().unwrap().iter().enumerate() {
+                s.push_str(&render_step(wstep, j));
+            }
+            s.push_str(&format!("obs S0 {OBS_VARS}\n)\n"));
+            s
+        } else {
+            case_script(&v, exp, "0", v["variant"].as_u64().unwrap_or(0) as usize)
+        };
+        let o = run_script(&v["nodes"], &v["start"], &script, mode);
+        let verdict = if exp["k"] == "none" {
+            match obs_of(&o, "S0") {
+                Some((_, pwd, old, cwd, _)) if pwd == v["s"]["pwd"] && old == v["s"]["oldpwd"] && cwd == v["s"]["cwd"] => "ok".to_string(),
+                Some((_, pwd, old, cwd, _)) => format!("state not reached: PWD={pwd} OLDPWD={old} cwd={cwd}"),
+                None => "no observation".to_string(),
+            }
+        } else {
+            match judge(&o, &v, exp, "0", mode) {
+                Verdict::Ok => "ok".to_string(),
+                Verdict::Unspec => "unspecified".to_string(),
+                Verdict::Dirty => "skipped (simulated cwd not canonical)".to_string(),
+                Verdict::StateNotReached(s) => format!("state not reached: {s}"),
+                Verdict::Deviation(f, s) => format!("deviation in {f}: observed {s}"),
+            }
+        };
+        if verdict != "ok" && verdict != "unspecified" && !verdict.starts_with("skipped") {
+            bad += 1;
+        }
+        writeln!(out, "{}", json!({"mode": mode.name(), "script": script, "expected": exp, "verdict": verdict})).unwrap();
+    }
+    out.flush().unwrap();
+    println!("{}", json!({"bad": bad}));
+}
+
 fn main() {
-    eprintln!("yv-g01: not implemented yet");
-    std::process::exit(2);
+    if let Ok(cwd) = std::env::var("YV_G01_CWD") {
+        real_child_main(cwd);
+    }
+    yvcommon::real::maybe_child_main();
+    if std::env::var("YV_LOUD").is_err() {
+        yvcommon::util::quiet_panics();
+    }
+    let args: Vec<String> = std::env::args().skip(1).collect();
+    match args.first().map(|s| s.as_str()) {
+        Some("replay") => replay(&args),
+        Some("random") => random(&args),
+        Some("redo") => redo(&args),
+        _ => {
+            eprintln!("usage: yv-g01 replay|random|redo [--in F] [--out F] ...");
+            std::process::exit(2);
+        }
+    }
 }
